@@ -257,16 +257,19 @@ def SvcReq.ev : SvcReq → SvcEv
   | .scan => .scan | .stop => .stop | .start => .start true | .pause => .pause | .resume => .resume
   | .restart => .restart | .disable => .disable | .enable => .enable | .fix => .fix | .compromise => .compromise
 
-inductive AppReq | scan | close | fix | compromise
+/-- The requests every application answers (`Application._init_request_manager`; `compromise` comes from `Software`).
+`execute` is the generic one (`self.run()`, answer = "RUNNING afterwards"); subclasses with an operation of their own
+register their own `execute` over it (those are not modelled, see `Cls.genericExecute`). -/
+inductive AppReq | scan | close | execute | fix | compromise
 deriving DecidableEq, Repr
 
-def AppReq.all : List AppReq := [.scan, .close, .fix, .compromise]
+def AppReq.all : List AppReq := [.scan, .close, .execute, .fix, .compromise]
 
 def AppReq.validator : AppReq → Option AppState
-  | .scan => some .running | .close => some .running | .fix => some .running | .compromise => none
+  | .scan => some .running | .close => some .running | .execute => none | .fix => some .running | .compromise => none
 
 def AppReq.ev : AppReq → AppEv
-  | .scan => .scan | .close => .close | .fix => .fix | .compromise => .compromise
+  | .scan => .scan | .close => .close | .execute => .run true | .fix => .fix | .compromise => .compromise
 
 /-- `RequestResponse.status` -/
 inductive Status | success | failure | unreachable
@@ -295,7 +298,9 @@ def Svc.request (s : Svc) (r : SvcReq) : Svc × Status :=
 def App.request (a : App) (r : AppReq) : App × Status :=
   if r.passes a.st then
     let (a', b) := a.apply r.ev
-    (a', Status.ofBool b)
+    match r with
+    | .execute => (a', Status.ofBool (a'.st == .running))   -- `from_bool(self.operating_state == RUNNING)` after `self.run()`
+    | _ => (a', Status.ofBool b)
   else (a, .failure)
 
 end Primaite.Lifecycle
